@@ -47,7 +47,7 @@ def relations : List (String × String × Expr) := [
   ("Transaction2SecondaryRequest", "Trans2_Data", (.fint "DataCount")),
   ("TransactionRequest", "Setup", (.fint "SetupCount")),
   ("TransactionRequest", "Pad1", (.fint "ParameterOffset")),
-  ("TransactionRequest", "Trans_Parameters", (.fint "TotalParameterCount")),
+  ("TransactionRequest", "Trans_Parameters", (.fint "ParameterCount")),
   ("TransactionRequest", "Pad2", (.fint "DataOffset")),
   ("TransactionRequest", "Trans_Data", (.fint "DataCount")),
   ("TransactionSecondaryRequest", "Pad1", (.fint "ParameterOffset")),
